@@ -1,0 +1,255 @@
+//go:build verif
+// +build verif
+
+package binary
+
+// Machine-checked contracts for gvc (see /verif/DESIGN.md). Comment-only file:
+// no executable code, excluded from every normal build.
+
+//@ spec thriftbin.smt2
+
+//@ define validSR(sr) = sr != nil && rpos(sr.reader) >= 0 && rpos(sr.reader) <= 4611686018427387904
+// Definitional unfoldings of the spec functions of thriftbin.smt2 (one level).
+//@ axiom unfoldFields(a, p) = fieldsEnd(a, p) == ite(a[p] == 0, p + 1, fieldsEnd(a, skipEnd(a, a[p], p + 3)))
+//@ axiom unfoldList(a, t, k, q) = listEnd(a, t, k, q) == ite(k <= 0, q, listEnd(a, t, k - 1, skipEnd(a, t, q)))
+//@ axiom unfoldMap(a, kt, vt, k, q) = mapEnd(a, kt, vt, k, q) == ite(k <= 0, q, mapEnd(a, kt, vt, k - 1, skipEnd(a, vt, skipEnd(a, kt, q))))
+// Closed forms for fixed-width element types, proved by induction in /verif/lemmas/C03.
+//@ lemma listEndFixed(a, t, k, q) = tyw(t) != 0 && k >= 0 && k <= 2147483647 ==> listEnd(a, t, k, q) == q + k * tyw(t)
+//@ lemma mapEndFixed(a, kt, vt, k, q) = tyw(kt) != 0 && tyw(vt) != 0 && k >= 0 && k <= 2147483647 ==> mapEnd(a, kt, vt, k, q) == q + k * (tyw(kt) + tyw(vt))
+
+//@ define rem(sr) = ite(rlen(sr.reader) - rpos(sr.reader) >= 0, rlen(sr.reader) - rpos(sr.reader), 0)
+
+//@ contract fixedWidth
+//@   props C03
+//@   pure
+//@   ensures(spec) result == ite(tyw(t) != 0, tyw(t), -1)
+//@ contract (*StreamReader).read
+//@   inline
+
+//@ contract (*StreamReader).ReadInt8
+//@   props C02 C03
+//@   nopanic
+//@   requires validSR(sr)
+//@   modifies sr.buffer, rpos(sr.reader)
+//@   ensures(pos) err == nil ==> rpos(sr.reader) == old(rpos(sr.reader)) + 1 && rpos(sr.reader) <= rlen(sr.reader)
+//@   ensures(val) err == nil ==> result == int8(rin(sr.reader)[old(rpos(sr.reader))])
+//@   ensures(mono) rpos(sr.reader) >= old(rpos(sr.reader)) && rpos(sr.reader) <= old(rpos(sr.reader)) + 1
+//@   ensures(valid) validSR(sr)
+
+//@ contract (*StreamReader).ReadInt16
+//@   props C02 C03
+//@   nopanic
+//@   requires validSR(sr)
+//@   modifies sr.buffer, rpos(sr.reader)
+//@   ensures(pos) err == nil ==> rpos(sr.reader) == old(rpos(sr.reader)) + 2 && rpos(sr.reader) <= rlen(sr.reader)
+//@   ensures(val) err == nil ==> result == int16(be16at(rin(sr.reader), old(rpos(sr.reader))))
+//@   ensures(mono) rpos(sr.reader) >= old(rpos(sr.reader)) && rpos(sr.reader) <= old(rpos(sr.reader)) + 2
+//@   ensures(valid) validSR(sr)
+
+//@ contract (*StreamReader).ReadInt32
+//@   props C02 C03
+//@   nopanic
+//@   requires validSR(sr)
+//@   modifies sr.buffer, rpos(sr.reader)
+//@   ensures(pos) err == nil ==> rpos(sr.reader) == old(rpos(sr.reader)) + 4 && rpos(sr.reader) <= rlen(sr.reader)
+//@   ensures(val) err == nil ==> result == int32(be32at(rin(sr.reader), old(rpos(sr.reader))))
+//@   ensures(mono) rpos(sr.reader) >= old(rpos(sr.reader)) && rpos(sr.reader) <= old(rpos(sr.reader)) + 4
+//@   ensures(valid) validSR(sr)
+
+//@ contract (*StreamReader).ReadInt64
+//@   props C02 C03
+//@   nopanic
+//@   requires validSR(sr)
+//@   modifies sr.buffer, rpos(sr.reader)
+//@   ensures(pos) err == nil ==> rpos(sr.reader) == old(rpos(sr.reader)) + 8 && rpos(sr.reader) <= rlen(sr.reader)
+//@   ensures(val) err == nil ==> result == int64(be64at(rin(sr.reader), old(rpos(sr.reader))))
+//@   ensures(mono) rpos(sr.reader) >= old(rpos(sr.reader)) && rpos(sr.reader) <= old(rpos(sr.reader)) + 8
+//@   ensures(valid) validSR(sr)
+
+//@ contract (*StreamReader).ReadDouble
+//@   props C02 C03
+//@   nopanic
+//@   requires validSR(sr)
+//@   modifies sr.buffer, rpos(sr.reader)
+//@   ensures(pos) err == nil ==> rpos(sr.reader) == old(rpos(sr.reader)) + 8
+//@   ensures(val) err == nil ==> bits(result) == be64at(rin(sr.reader), old(rpos(sr.reader)))
+//@   ensures(valid) validSR(sr)
+
+//@ contract (*StreamReader).ReadBool
+//@   props C02 C03
+//@   nopanic
+//@   requires validSR(sr)
+//@   modifies sr.buffer, rpos(sr.reader)
+//@   ensures(pos) err == nil ==> rpos(sr.reader) == old(rpos(sr.reader)) + 1
+//@   ensures(strict) err == nil ==> rin(sr.reader)[old(rpos(sr.reader))] == 0 || rin(sr.reader)[old(rpos(sr.reader))] == 1
+//@   ensures(val) err == nil ==> (result <==> rin(sr.reader)[old(rpos(sr.reader))] == 1)
+//@   ensures(valid) validSR(sr)
+
+//@ contract (*StreamReader).ReadBinary
+//@   props C02 C03 C13
+//@   nopanic
+//@   requires validSR(sr)
+//@   let p0 = rpos(sr.reader)
+//@   modifies sr.buffer, rpos(sr.reader)
+//@   alloc n <= 1048576
+//@   ensures(len) err == nil ==> int32(be32at(rin(sr.reader), p0)) >= 0 && len(result) == int64(int32(be32at(rin(sr.reader), p0)))
+//@   ensures(pos) err == nil ==> rpos(sr.reader) == p0 + 4 + len(result)
+//@   ensures(nonnil) err == nil ==> result != nil
+//@   ensures(mono) rpos(sr.reader) >= p0
+//@   ensures(valid) validSR(sr)
+
+//@ contract (*StreamReader).ReadFieldBegin
+//@   props C02 C03
+//@   nopanic
+//@   requires validSR(sr)
+//@   let p0 = rpos(sr.reader)
+//@   modifies sr.buffer, rpos(sr.reader)
+//@   ensures(stop) err == nil ==> (ok <==> rin(sr.reader)[p0] != 0)
+//@   ensures(stoppos) err == nil && !ok ==> rpos(sr.reader) == p0 + 1
+//@   ensures(hdr) err == nil && ok ==> rpos(sr.reader) == p0 + 3 && fh.Type == int8(rin(sr.reader)[p0]) && fh.ID == int16(be16at(rin(sr.reader), p0 + 1))
+//@   ensures(mono) rpos(sr.reader) >= p0
+//@   ensures(valid) validSR(sr)
+
+//@ contract (*StreamReader).readTypeSizeHeader
+//@   props C02 C03 C13
+//@   nopanic
+//@   requires validSR(sr)
+//@   let p0 = rpos(sr.reader)
+//@   modifies sr.buffer, rpos(sr.reader)
+//@   ensures(hdr) err == nil ==> rpos(sr.reader) == p0 + 5 && rpos(sr.reader) <= rlen(sr.reader) && result0 == int8(rin(sr.reader)[p0]) && result1 == int64(int32(be32at(rin(sr.reader), p0 + 1)))
+//@   ensures(nonneg) err == nil ==> result1 >= 0 && result1 <= 2147483647
+//@   ensures(mono) rpos(sr.reader) >= p0
+//@   ensures(valid) validSR(sr)
+
+//@ contract (*StreamReader).ReadListBegin
+//@   props C02 C03 C13
+//@   nopanic
+//@   requires validSR(sr)
+//@   let p0 = rpos(sr.reader)
+//@   modifies sr.buffer, rpos(sr.reader)
+//@   ensures(hdr) err == nil ==> rpos(sr.reader) == p0 + 5 && lh.Type == int8(rin(sr.reader)[p0]) && lh.Length == int64(int32(be32at(rin(sr.reader), p0 + 1)))
+//@   ensures(nonneg) err == nil ==> lh.Length >= 0 && lh.Length <= 2147483647
+//@   ensures(mono) rpos(sr.reader) >= p0
+//@   ensures(valid) validSR(sr)
+
+//@ contract (*StreamReader).ReadSetBegin
+//@   props C02 C03 C13
+//@   nopanic
+//@   requires validSR(sr)
+//@   let p0 = rpos(sr.reader)
+//@   modifies sr.buffer, rpos(sr.reader)
+//@   ensures(hdr) err == nil ==> rpos(sr.reader) == p0 + 5 && sh.Type == int8(rin(sr.reader)[p0]) && sh.Length == int64(int32(be32at(rin(sr.reader), p0 + 1)))
+//@   ensures(nonneg) err == nil ==> sh.Length >= 0 && sh.Length <= 2147483647
+//@   ensures(mono) rpos(sr.reader) >= p0
+//@   ensures(valid) validSR(sr)
+
+//@ contract (*StreamReader).ReadMapBegin
+//@   props C02 C03 C13
+//@   nopanic
+//@   requires validSR(sr)
+//@   let p0 = rpos(sr.reader)
+//@   modifies sr.buffer, rpos(sr.reader)
+//@   ensures(hdr) err == nil ==> rpos(sr.reader) == p0 + 6 && mh.KeyType == int8(rin(sr.reader)[p0]) && mh.ValueType == int8(rin(sr.reader)[p0 + 1]) && mh.Length == int64(int32(be32at(rin(sr.reader), p0 + 2)))
+//@   ensures(nonneg) err == nil ==> mh.Length >= 0 && mh.Length <= 2147483647
+//@   ensures(mono) rpos(sr.reader) >= p0
+//@   ensures(valid) validSR(sr)
+
+//@ fieldcontract StreamReader.discard
+//@   requires arg0 >= 0 && validSR(self)
+//@   modifies rpos(self.reader), wout(io.Discard), wlen(io.Discard)
+//@   ensures err == nil ==> rpos(self.reader) == old(rpos(self.reader)) + arg0
+//@   ensures rpos(self.reader) >= old(rpos(self.reader))
+//@   ensures validSR(self)
+
+//@ contract (*StreamReader).discardStream
+//@   props C03
+//@   nopanic
+//@   requires n >= 0 && validSR(sr)
+//@   modifies rpos(sr.reader), wout(io.Discard), wlen(io.Discard)
+//@   ensures(refine1) err == nil ==> rpos(sr.reader) == old(rpos(sr.reader)) + n
+//@   ensures(refine2) rpos(sr.reader) >= old(rpos(sr.reader))
+//@   ensures(refine3) validSR(sr)
+
+//@ contract (*StreamReader).discardSeek
+//@   props C03
+//@   nopanic
+//@   requires n >= 0 && validSR(sr) && sr._seeker != nil && ref(sr._seeker) == ref(sr.reader)
+//@   modifies rpos(sr.reader)
+//@   ensures(refine1) err == nil ==> rpos(sr.reader) == old(rpos(sr.reader)) + n
+//@   ensures(refine2) rpos(sr.reader) >= old(rpos(sr.reader))
+//@   ensures(refine3) validSR(sr)
+
+//@ contract (*StreamReader).Skip
+//@   props C03 C05
+//@   nopanic
+//@   requires validSR(sr)
+//@   let p0 = rpos(sr.reader)
+//@   modifies sr.buffer, rpos(sr.reader), wout(io.Discard), wlen(io.Discard)
+//@   ensures(end) err == nil ==> rpos(sr.reader) == skipEnd(rin(sr.reader), t, p0)
+//@   ensures(known) err == nil ==> knownty(t)
+//@   ensures(mono) rpos(sr.reader) >= p0
+//@   ensures(valid) validSR(sr)
+
+//@ contract (*StreamReader).skipStruct
+//@   props C03 C05
+//@   nopanic
+//@   requires validSR(sr)
+//@   let p0 = rpos(sr.reader)
+//@   modifies sr.buffer, rpos(sr.reader), wout(io.Discard), wlen(io.Discard)
+//@   loop 1: invariant validSR(sr) && rpos(sr.reader) >= p0 + 1
+//@   loop 1: invariant fieldType == int8(rin(sr.reader)[rpos(sr.reader) - 1])
+//@   loop 1: invariant fieldsEnd(rin(sr.reader), rpos(sr.reader) - 1) == fieldsEnd(rin(sr.reader), p0)
+//@   loop 1: use unfoldFields(rin(sr.reader), rpos(sr.reader) - 1)
+//@   ensures(end) err == nil ==> rpos(sr.reader) == fieldsEnd(rin(sr.reader), p0)
+//@   ensures(mono) rpos(sr.reader) >= p0
+//@   ensures(valid) validSR(sr)
+
+//@ contract (*StreamReader).skipMap
+//@   props C03 C05
+//@   nopanic
+//@   requires validSR(sr)
+//@   let p0 = rpos(sr.reader)
+//@   modifies sr.buffer, rpos(sr.reader), wout(io.Discard), wlen(io.Discard)
+//@   ensures(end) err == nil ==> rpos(sr.reader) == skipEnd(rin(sr.reader), 13, p0)
+//@   ensures(mono) rpos(sr.reader) >= p0
+//@   ensures(valid) validSR(sr)
+
+//@ contract (*StreamReader).skipList
+//@   props C03 C05
+//@   nopanic
+//@   requires validSR(sr)
+//@   let p0 = rpos(sr.reader)
+//@   modifies sr.buffer, rpos(sr.reader), wout(io.Discard), wlen(io.Discard)
+//@   ensures(end) err == nil ==> rpos(sr.reader) == skipEnd(rin(sr.reader), 15, p0)
+//@   ensures(mono) rpos(sr.reader) >= p0
+//@   ensures(valid) validSR(sr)
+
+//@ contract (*StreamReader).skipListItems
+//@   props C03 C05
+//@   nopanic
+//@   requires validSR(sr) && size >= 0 && size <= 2147483647
+//@   let p0 = rpos(sr.reader)
+//@   modifies sr.buffer, rpos(sr.reader), wout(io.Discard), wlen(io.Discard)
+//@   loop 1: invariant validSR(sr) && rpos(sr.reader) >= p0 && 0 <= i && i <= size
+//@   loop 1: invariant listEnd(rin(sr.reader), elemType, size - i, rpos(sr.reader)) == listEnd(rin(sr.reader), elemType, size, p0)
+//@   loop 1: use unfoldList(rin(sr.reader), elemType, size - i, rpos(sr.reader))
+//@   use listEndFixed(rin(sr.reader), elemType, size, rpos(sr.reader))
+//@   loop 1: decreases size - i
+//@   ensures(end) err == nil ==> rpos(sr.reader) == listEnd(rin(sr.reader), elemType, size, p0)
+//@   ensures(mono) rpos(sr.reader) >= p0
+//@   ensures(valid) validSR(sr)
+
+//@ contract (*StreamReader).skipMapItems
+//@   props C03 C05
+//@   nopanic
+//@   requires validSR(sr) && size >= 0
+//@   let p0 = rpos(sr.reader)
+//@   modifies sr.buffer, rpos(sr.reader), wout(io.Discard), wlen(io.Discard)
+//@   loop 1: invariant validSR(sr) && rpos(sr.reader) >= p0 && 0 <= i && i <= size
+//@   loop 1: invariant mapEnd(rin(sr.reader), key, value, int64(size) - int64(i), rpos(sr.reader)) == mapEnd(rin(sr.reader), key, value, int64(size), p0)
+//@   loop 1: use unfoldMap(rin(sr.reader), key, value, int64(size) - int64(i), rpos(sr.reader))
+//@   use mapEndFixed(rin(sr.reader), key, value, int64(size), rpos(sr.reader))
+//@   loop 1: decreases int64(size) - int64(i)
+//@   ensures(end) err == nil ==> rpos(sr.reader) == mapEnd(rin(sr.reader), key, value, int64(size), p0)
+//@   ensures(mono) rpos(sr.reader) >= p0
+//@   ensures(valid) validSR(sr)
